@@ -666,5 +666,6 @@ func runAdversary() {
 		v.recv()
 	})
 
+	runRogue(t1, j1)
 	runAdversaryTCP(t1, j1)
 }
